@@ -153,18 +153,22 @@ inductive Mode where
   /-- Fiat–Shamir with the hash `tmcg_mpz_shash` -/
   | ni (H : Hash)
 
-/-- one two-party flip inside a transcript: the party draws its share and randomiser, the
-    exchange of `CoinFlip.flipTwoParty` runs on the unread peer lines -/
+/-- the exchange of one two-party flip (`CoinFlip.flipTwoParty`) on the unread peer lines, with the
+    drawn share `c` and randomiser `hc` -/
+def flipStep (C : Crs) (c hc : Int) : M (Option Int) := fun s =>
+  match flipTwoParty C c hc s.peer with
+  | .error e => .err e
+  | .ok fl =>
+    let consumed := (fl.actions.filter fun a => match a with | .recv _ => true | _ => false).length
+    let s' := { s with sent := s.sent ++ sendsOf fl.actions, peer := s.peer.drop consumed }
+    if fl.threw then .halt false true s' else .ok fl.result s'
+
+/-- one two-party flip inside a transcript: the party draws its share and randomiser, then the
+    exchange runs -/
 def flip (C : Crs) : M (Option Int) := do
   let c ← draw
   let hc ← draw
-  fun s =>
-    match flipTwoParty C c hc s.peer with
-    | .error e => .err e
-    | .ok fl =>
-      let consumed := (fl.actions.filter fun a => match a with | .recv _ => true | _ => false).length
-      let s' := { s with sent := s.sent ++ sendsOf fl.actions, peer := s.peer.drop consumed }
-      if fl.threw then .halt false true s' else .ok fl.result s'
+  flipStep C c hc
 
 /-- the prover's side of one challenge: the provers ignore the return value of `Flip_twoparty`,
     so after a refused flip the variable keeps its initial value 0 -/
